@@ -107,6 +107,39 @@ func checkC10(w *Worker) {
 				map[string]interface{}{"file": data, "fail_at": k, "chunk": chunk, "together": together})
 		}
 	})
+	// ---- every generated skeleton file (<= 2 records x <= 2 items of every kind, README layout; thorough: 3 x 2): every offset
+	gr, ge := 2, 2
+	if w.Tier == "thorough" {
+		gr, ge = 3, 2
+	}
+	w.Explore("parser-read-faults-generated-files", ExploreOpts{ShardDepth: 4, Budgets: map[string]int{"layout": 0}}, func(x *Exec) {
+		f := genSkeleton(x, gr, ge, false)
+		data, _ := renderFile(x, f, renderOpts{})
+		k := x.Choose(len(data)+1, "fault:offset")
+		together := x.Choose(2, "fault:delivery") == 1
+		chunk := []int{0, 1, 3}[x.Choose(3, "env:chunk")]
+		full, fret, _ := parseWithReader(&faultReader{data: []byte(data), FailAt: len(data) + 1, Chunk: chunk})
+		if fret != nil {
+			x.Case("skip: complete file rejected", false)
+			return
+		}
+		fr := &faultReader{data: []byte(data), FailAt: k, Chunk: chunk, Together: together}
+		got, ret, pan := parseWithReader(fr)
+		x.Obs(got, fmt.Sprint(ret), pan)
+		x.Case(fmt.Sprint(data, k, together, chunk), fr.Failed)
+		if pan != "" {
+			x.Violate("C10|parser|panic", fmt.Sprintf("file %q, reader failing at byte %d: panic %s", data, k, pan), nil)
+			return
+		}
+		if ret == nil {
+			kind := "success-although-the-read-failed"
+			if got != full {
+				kind = "success-on-a-prefix"
+			}
+			x.Violate("C10|parser|"+kind, fmt.Sprintf("file %q, reader failing at byte %d of %d (chunk %d, error with last bytes: %v): the parser returned nil after delivering %s (complete file: %s)", data, k, len(data), chunk, together, got, full),
+				map[string]interface{}{"file": data, "fail_at": k, "chunk": chunk, "together": together})
+		}
+	})
 	// ---- a file of ~10 KB: offsets around every 4096-byte boundary, the first and last 40 bytes, stride 211
 	var big strings.Builder
 	for r := 0; r < 260; r++ {
